@@ -124,7 +124,45 @@ func c13CheckWire(wire []c13Wire, failed map[string]bool, quietAt map[string]int
 			closed[kk] = true
 		}
 	}
+	// data frames carry the written bytes in the order the writes were accepted: every call's payload is filled with
+	// one tag byte, so the frames of one Write call must form one contiguous run on the wire of its stream
+	lastTag := map[k]byte{}
+	done := map[k]map[byte]bool{}
+	for _, f := range wire {
+		if f.Sid == 0xffffffff || f.Closing != closingNothing || len(f.Payload) == 0 {
+			continue
+		}
+		kk := k{f.E, f.Sid}
+		tag := f.Payload[0]
+		for _, b := range f.Payload {
+			if b != tag {
+				tag = 0 // not one of the tagged payloads (e.g. echo data)
+				break
+			}
+		}
+		if tag == 0 {
+			continue
+		}
+		if done[kk] == nil {
+			done[kk] = map[byte]bool{}
+		}
+		if lt, ok := lastTag[kk]; ok && lt != tag {
+			done[kk][lt] = true
+		}
+		if done[kk][tag] {
+			return "write-interleaved", fmt.Sprintf("%s: the frames of one Write call (tag %d) on stream %d are interrupted by another call's frame: bytes are not on the wire in the order the writes were accepted", f.E, tag, f.Sid)
+		}
+		lastTag[kk] = tag
+	}
 	return "", ""
+}
+
+func c13Fill(n int, tag byte) []byte {
+	b := make([]byte, n)
+	for i := range b {
+		b[i] = tag
+	}
+	return b
 }
 
 type c13ChunkReader struct {
@@ -144,13 +182,13 @@ func (r *c13ChunkReader) Read(b []byte) (int, error) {
 	return n, nil
 }
 
-func c13Do(kind string, st *Stream, sz int) error {
+func c13Do(kind string, st *Stream, sz int, tag byte) error {
 	switch kind {
 	case "Write":
-		_, err := st.Write(make([]byte, sz))
+		_, err := st.Write(c13Fill(sz, tag))
 		return err
 	case "ReadFrom":
-		_, err := st.ReadFrom(&c13ChunkReader{chunks: [][]byte{make([]byte, sz), make([]byte, 7)}})
+		_, err := st.ReadFrom(&c13ChunkReader{chunks: [][]byte{c13Fill(sz, tag), c13Fill(7, tag+100)}})
 		if err == io.EOF {
 			return nil
 		}
@@ -173,9 +211,23 @@ func TestVerifC13Gate(t *testing.T) {
 			if ka == "Close" && kb == "Close" {
 				continue // the second Close is refused by the closed flag, it never sends
 			}
-			for _, szA := range []int{1, 20000} {
+			for _, szA := range []int{1, 20000, 70000} {
+				if szA == 70000 && ka != "Write" {
+					continue
+				}
 				round++
 				p := c13NewPair(2, methods[round%4], int64(round))
+				if szA == 70000 {
+					// a slow network: each record takes 2 ms, so a writer that re-acquires the mutex per frame
+					// (instead of holding it for the whole call) lets the waiting sender in between two frames
+					inner := p.vn.Tap
+					p.vn.Tap = func(ev kit.TapEvent) {
+						inner(ev)
+						if ev.Kind == "w" {
+							time.Sleep(2 * time.Millisecond)
+						}
+					}
+				}
 				st, err := p.c.OpenStream()
 				if err != nil {
 					t.Fatal(err)
@@ -193,14 +245,14 @@ func TestVerifC13Gate(t *testing.T) {
 				})
 				var wg sync.WaitGroup
 				wg.Add(1)
-				go func() { defer wg.Done(); c13Do(ka, st, szA) }()
+				go func() { defer wg.Done(); c13Do(ka, st, szA, 10) }()
 				deadline := time.Now().Add(5 * time.Second)
 				for arrivals.Load() == 0 && time.Now().Before(deadline) {
 					time.Sleep(time.Millisecond)
 				}
 				parked := arrivals.Load() >= 1
 				wg.Add(1)
-				go func() { defer wg.Done(); c13Do(kb, st, 33) }()
+				go func() { defer wg.Done(); c13Do(kb, st, 33, 20) }()
 				time.Sleep(60 * time.Millisecond) // grace period: with the mutex the second sender cannot arrive
 				second := arrivals.Load() >= 2
 				close(gate)
@@ -320,17 +372,17 @@ func TestVerifC13Stress(t *testing.T) {
 					defer swg.Done()
 					lr := kit.NewRng(int64(seed))
 					for j := 0; j < 6; j++ {
+						tag := byte(1 + (w*6+j)%120)
 						sz := []int{1, 13, 1400, 16132, 16133, 40000}[lr.Intn(6)]
 						var err error
 						if lr.Intn(3) == 0 {
-							chunks := [][]byte{make([]byte, sz), make([]byte, 1+lr.Intn(3000))}
+							chunks := [][]byte{c13Fill(min(sz, 16000), tag), c13Fill(1+lr.Intn(3000), tag+125)}
 							_, err = st.ReadFrom(&c13ChunkReader{chunks: chunks})
 							if err == io.EOF {
 								err = nil
 							}
 						} else {
-							payload := make([]byte, sz)
-							_, err = st.Write(payload)
+							_, err = st.Write(c13Fill(sz, tag))
 						}
 						if err != nil {
 							failedMu.Lock()
